@@ -9,7 +9,7 @@
    untouched rest and idempotence are decided per generated graph by the independent oracle (harness/spec_linear.py),
    not proved. *)
 From Coq Require Import List String Ascii ZArith Bool.
-From GfaV Require Import Base.Py Model.Codec Model.Graph Model.Topology Model.Linear Proofs.LinearP Proofs.GraphP Proofs.MergeFrameP.
+From GfaV Require Import Base.Py Model.Codec Model.Graph Model.Topology Model.Linear Proofs.LinearP Proofs.GraphP Proofs.MergeFrameP Proofs.RelinkP.
 Import ListNotations.
 Open Scope string_scope.
 Open Scope list_scope.
@@ -76,6 +76,25 @@ Theorem C14_other_segments_untouched : forall s path s' x,
   In x (lines s').
 Proof. exact merge_path_keeps_other_segments. Qed.
 Print Assumptions C14_other_segments_untouched.
+
+(* the outward dovetails arrive on the right ends: a link on the exit end of the last member of the chain is, after
+   relinking, on the R end of the merged segment; a link on the entry end of the first member on its L end — whatever the
+   orientations of the link and of the traversal (the flags are those merge_path passes) *)
+Theorem C14_dovetails_of_the_last_member_go_right : forall name n e i f fo t too rest tags v,
+  orient_ok fo -> orient_ok too -> end_ok e ->
+  (f = t -> (if String.eqb fo "+" then "R" else "L") = (if String.eqb too "+" then "L" else "R")) ->
+  In (n, e) (link_ends (mkGl i KL (f :: fo :: t :: too :: rest) tags v)) ->
+  In (name, "R") (link_ends (relink name (n, e) (String.eqb e "L") (mkGl i KL (f :: fo :: t :: too :: rest) tags v))).
+Proof. exact relink_last. Qed.
+Print Assumptions C14_dovetails_of_the_last_member_go_right.
+
+Theorem C14_dovetails_of_the_first_member_go_left : forall name n e i f fo t too rest tags v,
+  orient_ok fo -> orient_ok too -> end_ok e ->
+  (f = t -> (if String.eqb fo "+" then "R" else "L") = (if String.eqb too "+" then "L" else "R")) ->
+  In (inv_end (n, e)) (link_ends (mkGl i KL (f :: fo :: t :: too :: rest) tags v)) ->
+  In (name, "L") (link_ends (relink name (inv_end (n, e)) (String.eqb e "L") (mkGl i KL (f :: fo :: t :: too :: rest) tags v))).
+Proof. exact relink_first. Qed.
+Print Assumptions C14_dovetails_of_the_first_member_go_left.
 
 Example C14_demo :
   linear_paths demo = Ok [[("A", "R"); ("B", "L"); ("C", "R")]]
